@@ -428,6 +428,66 @@ def structure_idx(project, fresh):
     }
 
 
+def edited_case(case, e):
+    """the case after the model edit e (what a fresh build of the edited model is built from)"""
+    c = copy.deepcopy(case)
+    k = e["kind"]
+    if k == "skill":
+        c["teams"][e["team"]]["workers"][e["j"]]["skills"][str(e["name"])] = e["val"]
+    elif k == "work":
+        c["tasks"][e["t"]]["work"] = e["val"]
+    elif k == "cost":
+        c["teams"][e["team"]]["workers"][e["j"]]["cost"] = e["val"]
+    elif k == "wabs":
+        c["teams"][e["team"]]["workers"][e["j"]]["abs"] = list(e["list"])
+    elif k == "edge":
+        c["edges"] = list(c["edges"]) + [[e["p"], e["s"], e["k"]]]
+    elif k == "add_worker":
+        c["teams"][-1]["workers"].append(copy.deepcopy(e["worker"]))
+    elif k == "rate":
+        c["tasks"][e["t"]]["rate"] = e["val"]
+    else:
+        raise ValueError(k)
+    return c
+
+
+def apply_edit(b, e):
+    """the same edit applied to the live objects of a built (and possibly simulated) project"""
+    case = b.case
+    k = e["kind"]
+
+    def worker(ti, j):
+        return b.teams[ti].worker_list[j]
+    if k == "skill":
+        worker(e["team"], e["j"]).workamount_skill_mean_map["n%s" % e["name"]] = fl(e["val"])
+    elif k == "work":
+        b.tasks[e["t"]].default_work_amount = fl(e["val"])
+    elif k == "cost":
+        worker(e["team"], e["j"]).cost_per_time = fl(e["val"])
+    elif k == "wabs":
+        worker(e["team"], e["j"]).absence_time_list = list(e["list"])
+    elif k == "edge":
+        b.tasks[e["s"]].append_input_task(b.tasks[e["p"]], task_dependency_mode=BaseTaskDependency(e["k"]))
+    elif k == "rate":
+        b.tasks[e["t"]].work_amount_progress_of_unit_step_time = fl(e["val"])
+    elif k == "add_worker":
+        w = e["worker"]
+        gi = len(b.workers)
+        wid = (gi if case.get("ids") == "num" else "w%d" % gi)
+        if case.get("ids") == "uuid":
+            import uuid
+            wid = str(uuid.uuid4())
+        wk = BaseWorker("wn%d" % w.get("name", gi), ID=wid, cost_per_time=fl(w.get("cost", "0")), solo_working=bool(w.get("solo", False)),
+                        workamount_skill_mean_map={"n%s" % kk: fl(v) for kk, v in w.get("skills", {}).items()},
+                        facility_skill_map={"fn%s" % kk: fl(v) for kk, v in w.get("fskills", {}).items()},
+                        absence_time_list=list(w.get("abs", [])))
+        b.teams[-1].add_worker(wk)
+        b.workers.append(wk)
+        REG[("w", wid)] = gi
+    else:
+        raise ValueError(k)
+
+
 class Crash(Exception):
     pass
 
@@ -534,6 +594,8 @@ def run_ops(case, want_snaps=True, ops=None, built=None):
                     if p.time > 0:
                         p.workflow.extract_working_task_list([0, p.time - 1])
                         p.product.extract_working_component_list([0])
+                elif name == "edit":
+                    apply_edit(b, op["edit"])
                 elif name == "initialize":
                     p.initialize(state_info=bool(op.get("state", True)), log_info=bool(op.get("log", True)))
                 elif name == "reverse_log":
